@@ -108,22 +108,68 @@ def gen_bloom_script(rng):
     return '\n'.join(L) + '\n'
 
 
+def gen_storage_script(rng):
+    """Storage-level: real blobs, hierarchy of merged filters (group 2/3/4), off-loading at levels 0..2,
+    restarts (filters re-read from index files), deletes into closed blobs; every stored key and a few
+    absent keys probed through check_filters / check_filter / read after every step."""
+    from .gen_storage import Gen, key_hex, bloom_cfg_hex
+    K = rng.choice([1, 4, 8, 32])
+    g = Gen(rng, K=K, dup=1, nkeys=rng.choice([3, 4, 5]), group=rng.choice([2, 2, 3, 4]), bloom=True,
+            queries=(), maint=0.0, restart=0.0, deletes=0.0, metas=False, nops=1)
+    L = [g.cfg_line(), 'open']
+    keys = g.keys
+    absent = [key_hex(K, 4) if len(keys) < 5 else keys[0]]
+    def probes():
+        for k in keys + absent:
+            L.append('CF %s' % k); L.append('CFS %s' % k); L.append('R %s' % k)
+    seed = 0
+    for step in range(rng.randrange(8, 30)):
+        x = rng.random()
+        if x < 0.35:
+            seed += 1
+            L.append('W %s %d - 5 %d' % (rng.choice(keys), rng.choice([5, 7, 9]), seed))
+        elif x < 0.45:
+            L.append('D %s %d - %d' % (rng.choice(keys), rng.choice([5, 7, 9]), rng.choice([0, 1])))
+        elif x < 0.70:
+            L.append(rng.choice(['close_active', 'close_active', 'force_update always', 'create_active']))
+        elif x < 0.78:
+            L.append('restore_active')
+        elif x < 0.92:
+            L.append('offload %d %d' % (rng.choice([1, 64, 100000]), rng.choice([0, 1, 2])))
+        else:
+            L.append('close'); L.append('open')
+        probes()
+    return '\n'.join(L) + '\n'
+
+
 def gen(tier, rng):
     n = 300 if tier == 'quick' else 6000
     out = []
     for i in range(n):
         out.append(('bloom%05d' % i, gen_bloom_script(rng)))
+    for i in range(160 if tier == 'quick' else 4000):
+        out.append(('stor%05d' % i, gen_storage_script(rng)))
     return out
 
 
 def oracle(lines, out, spec=None):
     """Property predicates evaluated on the implementation's observations alone."""
-    fails = []
+    from . import common as C
+    fails = C.spec_oracle(lines, out, spec, ('R',))
     keys = {}        # bloom id -> set of keys certainly in it
     rawkeys = {}     # raw id -> set of keys in it when captured (None if capture failed)
     offl = set()
+    stored = set()   # storage level: keys for which some record (marker included) was acknowledged
     for i, (l, o) in enumerate(zip(lines, out)):
         t = l.split()
+        if t[0] == 'W' and o == 'W ok':
+            stored.add(t[1])
+        elif t[0] == 'D' and o.startswith('D ') and not o.startswith('D Err') and o != 'D 0':
+            stored.add(t[1])
+        elif t[0] == 'CF' and t[1] in stored and o == 'CF no':
+            fails.append('line %d: check_filters says definitely-absent for stored key %s' % (i, t[1]))
+        elif t[0] == 'CFS' and t[1] in stored and o == 'CFS no':
+            fails.append('line %d: check_filter says definitely-absent for stored key %s' % (i, t[1]))
         if t[0] != 'bloom':
             continue
         op = t[1]
@@ -154,10 +200,13 @@ def oracle(lines, out, spec=None):
 
 
 def classify(known, lines, out, msg):
-    return False
+    return msg.startswith('[%s]' % known['id'])
 
 
 def signature(lines, out):
+    if len(lines) > 1 and lines[1] == 'open':
+        from . import common as C
+        return C.ops_signature(lines, out)
     cfgs = tuple(l.split()[3] for l in lines if l.startswith('bloom new'))
     ops = {}
     for l, o in zip(lines, out):
